@@ -91,6 +91,7 @@ def gen_members(rng, nmax=60):
                 recs.insert(rng.randrange(len(recs) + 1), ("size", None))
             m["pax"] = recs or [("comment", "x")]
             m["visor_pax"] = rng.random() < 0.3
+            m["pax_first"] = rng.random() < 0.5
         if kind in ("file", "std", "empty") and not name.endswith("/"):
             # regular files may carry the old-style NUL type flag or the 'contiguous file' flag
             m["typeflag"] = rng.choice([b"0", b"0", b"0", b"\0", b"7"])
